@@ -261,6 +261,10 @@ class EditDistance(SequenceEdit):
                     ret = False
                 if not ret:
                     self._cleanup()
+                    # completing the matrix may itself have tightened our bounds
+                    final_bounds: Range = self.bounds()
+                    ret = final_bounds.lower_bound > initial_bounds.lower_bound or \
+                        final_bounds.upper_bound < initial_bounds.upper_bound
                 return ret
 
             if not first_fringe:
